@@ -262,8 +262,8 @@ Theorem step_refines s o :
 Proof.
   intros HI Hop. destruct o; try contradiction; cbn [step].
   - (* Send *)
-    unfold enqueue. destruct (closed s) eqn:Hc; [reflexivity|]. destruct (k =? 0).
-    + destruct (pool s) as [|i rest]; [reflexivity|]. rewrite check_set_pool. destruct (check s i) eqn:Hck; cbn [fst snd astep].
+    unfold enqueue; rewrite ?check2_eq. destruct (closed s) eqn:Hc; [reflexivity|]. destruct (k =? 0).
+    + destruct (pool s) as [|i rest]; [reflexivity|]. rewrite ?check2_eq, check_set_pool. destruct (check s i) eqn:Hck; cbn [fst snd astep].
       * unfold release. destruct (_ <? _); reflexivity.
       * apply check_None in Hck. destruct Hck as [_ Hnot]. unfold abs, register.
         cbn [inflight finished next_rid closed set_pool]. rewrite (remove_key_notin _ _ Hnot), map_app. reflexivity.
